@@ -30,6 +30,9 @@ using CRef = typename Vec::const_reference;
 using M = Model<LT::N>;
 using ME = MElem<LT::N>;
 constexpr bool ALWAYS_EQ = (AFLAGS & AF_ALWAYS_EQUAL) != 0;
+#ifndef TWO_ASSIGN
+#define TWO_ASSIGN 0
+#endif
 constexpr bool POCCA = (AFLAGS & AF_POCCA) != 0, POCMA = (AFLAGS & AF_POCMA) != 0;
 
 static Vec build(M& m)
@@ -257,7 +260,7 @@ extern "C" void h_entry()
         else if constexpr (OP == OP_ELEM_ASSIGN)
         {
             usize how = verif_nondet_size(), i = verif_nondet_size(), eq = verif_nondet_size();
-            verif_assume(how < 5 && i < 2 && eq < 2);
+            verif_assume(how < (TWO_ASSIGN ? 7 : 5) && i < 2 && eq < 2);  // 5, 6: only in the C12 pool (-DTWO_ASSIGN=1)
             how = verif_fork(how);
             i = verif_fork(i);
             eq = verif_fork(eq);
@@ -307,6 +310,33 @@ extern "C" void h_entry()
                 }
                 check_el(b, m.e[i], 500);
                 check_el(sink, m.e[j], 800);
+                inv<LT>(v, m, 700);
+            }
+            else if (how == 5 || how == 6)
+            {
+                // two assignments in a row to the same target: the first may shrink the live size below what the block holds, the
+                // second grows it again within the block (seeded change C12-move-assign-inplace-min-size)
+                Elem c(rj, EAlloc(ida));
+                ME mc = m.e[j];
+                scribble(Ref(c), mc, SEQ);  // same sizes as the target's first contents, other values: stale bytes would show
+                check_el(c, mc, 900);
+                if (how == 5)
+                {
+                    b = std::move(a);
+                    check_el(b, m.e[i], 400);
+                    b = std::move(c);
+                    verif_assert(b.get_allocator().id == (POCMA ? ida : idb), 801);
+                }
+                else
+                {
+                    b = a;
+                    check_el(b, m.e[i], 400);
+                    b = c;
+                    check_el(c, mc, 600);
+                    check_el(a, m.e[i], 900);
+                    verif_assert(b.get_allocator().id == (POCCA ? ida : idb), 801);
+                }
+                check_el(b, mc, 500);
                 inv<LT>(v, m, 700);
             }
             else
